@@ -34,6 +34,24 @@
 (*    "one-below" / "one-above").  The replay writes the image with those  *)
 (*    lengths; HashedLength states the size-sensitive part of the property.*)
 (*                                                                         *)
+(* Invocation shapes (modes "sign" and "auth"): how a tool is invoked is    *)
+(*    part of the environment.  Env picks a setup [size, dirs, form]:      *)
+(*    dirs = how the image files are named and placed                      *)
+(*       "flat"      distinct names in one directory                       *)
+(*       "samename"  the same file name in a directory per image           *)
+(*       "mixed"     images 1 and 2 share a name in two directories, the   *)
+(*                   others have names of their own                        *)
+(*       "blanks"    distinct names with blanks / non-ASCII characters     *)
+(*    form = index into Forms, [addr, cwd, pub]: image paths given          *)
+(*       relative / absolute / "./x" / mixed within one list; the working  *)
+(*       directory is the images' directory or another one; the public     *)
+(*       key (-p) or authorization (-o) path relative, absolute, or in     *)
+(*       another directory.  Every other invocation of a session uses      *)
+(*       AltForm[form] (so the same files are also named the other way).   *)
+(*    Setups / AuthSetups are covering sets (every pair of values occurs). *)
+(*    Sys identifies an image by its path: NameOf is only used by the      *)
+(*    defective variant "byname" (a hash table keyed by file name).        *)
+(*                                                                         *)
 (* Variant # "ok" swaps in a defective Sys; used only by the negative      *)
 (* configurations (each invariant must be violated by its variant).        *)
 (***************************************************************************)
@@ -51,11 +69,16 @@ CONSTANTS Images,      \* set of images; an image is a set of areas [z, o, d]
           OutPaths,    \* auth mode: 0 = print, n > 0 = the n-th -o path
           MaxSteps,    \* auth mode: invocations in a row
           SizeClasses, \* subset of DOMAIN UnitLens
+          Setups,      \* sign mode: set of [size, dirs, form]
+          AuthSetups,  \* auth mode: set of [size, dirs, form]
+          Forms,       \* sequence of [addr, cwd, pub]
+          AltForm,     \* form index -> the form of every other invocation
           UnitLens,    \* size class -> sequence: unit id -> real length in bytes
-          Variant      \* "ok" | "reuse" | "leak" | "signpath" | "twopubs" | "fileorder" | "stale" | "tailtwice"
+          Variant      \* "ok" | "reuse" | "leak" | "signpath" | "twopubs" | "fileorder" | "stale" | "tailtwice" | "byname"
 
 VARIABLES mode,
           size,        \* the size class Env picked ("none": not yet)
+          setup,       \* [dirs, form] Env picked (modes "sign" and "auth")
           \* ---- image mode
           img,         \* the image being written
           pending,     \* data records [z, a, d] not yet in the file
@@ -75,7 +98,7 @@ VARIABLES mode,
 ivars == <<img, pending, file, wzone, extra, p, done>>
 svars == <<pc, run, plan, cur, sk, fresh, gens, fs, idx, h, sig, outleak, obs>>
 avars == <<afs, apre, astep, alast, aplan>>
-vars  == <<mode, size, ivars, svars, avars>>
+vars  == <<mode, size, setup, ivars, svars, avars>>
 
 (***************************************************************************)
 (* image mode                                                              *)
@@ -96,6 +119,13 @@ RECURSIVE AllCuts(_)
 AllCuts(as) == IF as = <<>> THEN {{}}
                ELSE { c \cup rest : c \in Cuts(as[1].z, as[1].o, as[1].d), rest \in AllCuts(Tail(as)) }
 
+NoSetup == [dirs |-> "none", form |-> 0]
+\* the form of the k-th invocation of a session
+FormOf(k) == IF k % 2 = 1 THEN setup.form ELSE AltForm[setup.form]
+\* file name (a number) of image i under a directory layout
+NameOf(i) == IF setup.dirs = "samename" THEN 1
+             ELSE IF setup.dirs = "mixed" THEN (IF i <= 2 THEN 1 ELSE i)
+             ELSE i
 NoPlan == <<>>
 SignInit == /\ pc = "idle" /\ run = 0 /\ plan = NoPlan /\ cur = [imgs |-> <<>>, pub |-> PubPath(0)]
             /\ sk = 0 /\ fresh = 1 /\ gens = <<>> /\ fs = {} /\ idx = 0 /\ h = 0
@@ -111,7 +141,10 @@ AuthIdle == /\ afs = [o \in APaths |-> NoAuth] /\ apre = afs /\ astep = 0 /\ ala
             /\ aplan = <<>>
 
 Init == /\ mode \in Modes
-        /\ IF mode = "image" THEN size = "none" ELSE size \in SizeClasses
+        /\ IF mode = "image" THEN size = "none" /\ setup = NoSetup
+           ELSE \E su \in (IF mode = "sign" THEN Setups ELSE AuthSetups) :
+                   /\ su.size \in SizeClasses
+                   /\ size = su.size /\ setup = [dirs |-> su.dirs, form |-> su.form]
         /\ IF mode = "image"
            THEN /\ img \in Images
                 /\ pending \in AllCuts(SetToSeq(img))
@@ -134,17 +167,17 @@ SelectZone == /\ mode = "image" /\ ~done
                     /\ IF needed THEN TRUE ELSE extra > 0
                     /\ extra' = IF needed THEN extra ELSE extra - 1
                     /\ wzone' = z /\ Put(Ela(z))
-              /\ UNCHANGED <<mode, size, img, pending, done, svars, avars>>
+              /\ UNCHANGED <<mode, size, setup, img, pending, done, svars, avars>>
 
 WriteData == /\ mode = "image" /\ ~done
              /\ \E r \in pending :
                    /\ r.z = wzone
                    /\ pending' = pending \ {r} /\ Put(Data(r.a, r.d))
-             /\ UNCHANGED <<mode, size, img, wzone, extra, done, svars, avars>>
+             /\ UNCHANGED <<mode, size, setup, img, wzone, extra, done, svars, avars>>
 
 WriteEof == /\ mode = "image" /\ ~done /\ pending = {}
             /\ Put(Eof) /\ done' = TRUE /\ size' \in SizeClasses
-            /\ UNCHANGED <<mode, img, pending, wzone, extra, svars, avars>>
+            /\ UNCHANGED <<mode, setup, img, pending, wzone, extra, svars, avars>>
 
 \* what compute_app_hash feeds to SHA-256 once the file is complete
 \* "tailtwice": block-wise hashing whose remainder step takes the whole area when the area is an
@@ -175,18 +208,18 @@ RunRec == [imgs |-> cur.imgs, pub |-> cur.pub, gens |-> gens, exit |-> 0, files 
 StartRun == /\ mode = "sign" /\ pc \in {"idle", "exited"} /\ run < MaxRuns
             /\ \E l \in ImgLists, pp \in PubPaths :
                   /\ cur' = [imgs |-> l, pub |-> PubPath(pp)]
-                  /\ plan' = Append(plan, [imgs |-> l, pub |-> pp])
+                  /\ plan' = Append(plan, [imgs |-> l, pub |-> pp, form |-> FormOf(run + 1)])
             /\ run' = run + 1 /\ pc' = "gen" /\ gens' = <<>> /\ idx' = 1 /\ outleak' = FALSE
             /\ fs' = {[f EXCEPT !.w = FALSE] : f \in (IF run = 0 THEN ImgFiles ELSE fs)}
             /\ obs' = IF pc = "exited" THEN ObserveRun(obs, RunRec) ELSE obs
-            /\ UNCHANGED <<mode, size, avars, ivars, sk, fresh, h, sig>>
+            /\ UNCHANGED <<mode, size, setup, avars, ivars, sk, fresh, h, sig>>
 
 GenKey == /\ mode = "sign" /\ pc = "gen"
           /\ IF Variant = "reuse" /\ sk # 0
              THEN UNCHANGED <<sk, fresh, gens>>          \* a module-level key survives the run
              ELSE sk' = fresh /\ fresh' = fresh + 1 /\ gens' = Append(gens, fresh)
           /\ pc' = "wpub"
-          /\ UNCHANGED <<mode, size, avars, ivars, run, plan, cur, fs, idx, h, sig, outleak, obs>>
+          /\ UNCHANGED <<mode, size, setup, avars, ivars, run, plan, cur, fs, idx, h, sig, outleak, obs>>
 
 WritePub == /\ mode = "sign" /\ pc = "wpub"
             /\ LET f1 == Write(fs, FileRec(cur.pub, "pub", sk, 0, 0, FALSE))
@@ -197,26 +230,32 @@ WritePub == /\ mode = "sign" /\ pc = "wpub"
                          ELSE f1
                IN fs' = f2
             /\ pc' = "hash"
-            /\ UNCHANGED <<mode, size, avars, ivars, run, plan, cur, sk, fresh, gens, idx, h, sig, outleak, obs>>
+            /\ UNCHANGED <<mode, size, setup, avars, ivars, run, plan, cur, sk, fresh, gens, idx, h, sig, outleak, obs>>
 
 \* compute_app_hash(image) -- by HashInputOk (image mode) a function of the content only
 HashI == /\ mode = "sign" /\ pc = "hash"
          /\ h' = Contents[cur.imgs[idx]] /\ pc' = "sign"
-         /\ UNCHANGED <<mode, size, avars, ivars, run, plan, cur, sk, fresh, gens, fs, idx, sig, outleak, obs>>
+         /\ UNCHANGED <<mode, size, setup, avars, ivars, run, plan, cur, sk, fresh, gens, fs, idx, sig, outleak, obs>>
 
+\* "byname": the hashes were put in a table keyed by file name; the last image with a name wins
+LastNamed(n) == LET ks == {k \in DOMAIN cur.imgs : NameOf(cur.imgs[k]) = n}
+                IN  cur.imgs[CHOOSE k \in ks : \A j \in ks : j <= k]
 SignI == /\ mode = "sign" /\ pc = "sign"
-         /\ sig' = [by |-> sk, over |-> IF Variant = "signpath" THEN 0 ELSE h]
+         /\ sig' = [by |-> sk, over |-> IF Variant = "signpath" THEN 0
+                                       ELSE IF Variant = "byname"
+                                       THEN Contents[LastNamed(NameOf(cur.imgs[idx]))]
+                                       ELSE h]
          /\ pc' = "wsig"
-         /\ UNCHANGED <<mode, size, avars, ivars, run, plan, cur, sk, fresh, gens, fs, idx, h, outleak, obs>>
+         /\ UNCHANGED <<mode, size, setup, avars, ivars, run, plan, cur, sk, fresh, gens, fs, idx, h, outleak, obs>>
 
 WriteSigI == /\ mode = "sign" /\ pc = "wsig"
              /\ fs' = Write(fs, FileRec(SigPath(cur.imgs[idx]), "sig", 0, sig.by, sig.over, FALSE))
              /\ idx' = idx + 1
              /\ pc' = IF idx = Len(cur.imgs) THEN "exit" ELSE "hash"
-             /\ UNCHANGED <<mode, size, avars, ivars, run, plan, cur, sk, fresh, gens, h, sig, outleak, obs>>
+             /\ UNCHANGED <<mode, size, setup, avars, ivars, run, plan, cur, sk, fresh, gens, h, sig, outleak, obs>>
 
 Exit == /\ mode = "sign" /\ pc = "exit" /\ pc' = "exited"
-        /\ UNCHANGED <<mode, size, avars, ivars, run, plan, cur, sk, fresh, gens, fs, idx, h, sig, outleak, obs>>
+        /\ UNCHANGED <<mode, size, setup, avars, ivars, run, plan, cur, sk, fresh, gens, fs, idx, h, sig, outleak, obs>>
 
 (***************************************************************************)
 (* auth mode                                                               *)
@@ -231,9 +270,10 @@ Message == /\ mode = "auth" /\ astep < MaxSteps
                 IN /\ afs' = IF o = 0 THEN afs ELSE [afs EXCEPT ![o] = wr]
                    /\ alast' = [img |-> i, iter |-> it, out |-> o, exit |-> 0, found |-> TRUE,
                                 hash |-> wr.hash, gotiter |-> wr.gotiter]
-                   /\ aplan' = Append(aplan, [img |-> i, iter |-> it, out |-> o])
+                   /\ aplan' = Append(aplan, [img |-> i, iter |-> it, out |-> o,
+                                                form |-> FormOf(astep + 1)])
            /\ astep' = astep + 1
-           /\ UNCHANGED <<mode, size, ivars, svars, apre>>
+           /\ UNCHANGED <<mode, size, setup, ivars, svars, apre>>
 
 Next == Message \/ SelectZone \/ WriteData \/ WriteEof
         \/ StartRun \/ GenKey \/ WritePub \/ HashI \/ SignI \/ WriteSigI \/ Exit
@@ -266,6 +306,10 @@ NeverDone      == ~done
 NeverSecondRun == ~(Exited /\ run = 2)
 OrderIrrelevant == done => FileOrderInput(file) = ConcatSorted(img)   \* false: files are out of order
 
+\* a run naming two images of different contents by one file name (in two directories)
+NeverNameClash == ~(Exited /\ \E a, b \in DOMAIN cur.imgs :
+                        /\ NameOf(cur.imgs[a]) = NameOf(cur.imgs[b])
+                        /\ Contents[cur.imgs[a]] # Contents[cur.imgs[b]])
 NeverReusesPath == ~(mode = "auth" /\ astep >= 2 /\ aplan[1].out # 0 /\ aplan[2].out = aplan[1].out
                       /\ aplan[1].img # aplan[2].img)
 AuthTerminal  == mode = "auth" /\ astep = MaxSteps
